@@ -2,8 +2,10 @@ mod c01;
 mod c06;
 mod c07;
 mod syn;
+mod c09;
 mod c10;
 mod c12;
+mod c13;
 mod c14;
 mod c15;
 mod c20;
@@ -45,6 +47,17 @@ fn main() {
   if args[1] == "c14-conc" {
     return c14::conc_main(&args[2]);
   }
+  if args[1] == "cbor" {
+    // mc cbor <schema> <hex>: CBOR validator on raw bytes (triage aid)
+    let schema = args[2].replace("\\n", "\n");
+    let b = unhex(&args[3]);
+    println!("decode: {:?}", cddl::validator::cbor_value::decode_cbor(&b).map(|v| format!("{:?}", v)).map_err(|e| format!("{e:?}")));
+    println!("cbor: {}", verdicts::cbor_slice(&schema, &b).short());
+    if let Err(e) = cddl::validate_cbor_from_slice(&schema, &b, None) {
+      println!("  detail: {e}");
+    }
+    return;
+  }
   if args[1] == "fmt" {
     // mc fmt <cddl-text>: parse, shape, format, re-parse (triage aid)
     let text = args[2].replace("\\n", "\n");
@@ -80,6 +93,8 @@ fn main() {
       "C14" => c14::replay(&j["case"], j["kind"].as_str().unwrap_or("")),
       "C06" => c06::replay(&j["case"]),
       "C20" => c20::replay(&j["case"]),
+      "C09" => c09::replay(&j["case"]),
+      "C13" => c13::replay(&j["case"]),
       "C07" => c07::replay(&j["case"]),
       "C15" => c15::replay(&j["case"]),
       "C12" => c12::replay(&j["case"], j["kind"].as_str().unwrap_or("")),
@@ -110,6 +125,8 @@ fn main() {
     "C10" => c10::run(tier),
     "C06" => c06::run(tier),
     "C20" => c20::run(tier),
+    "C09" => c09::run(tier),
+    "C13" => c13::run(tier),
     "C07" => c07::run(tier),
     "C15" => c15::run(tier),
     "C12" => c12::run(tier),
